@@ -113,6 +113,20 @@ func suiteScan(o *Out, thorough bool, seed int64) {
 		emit(text, len(idx) >= 2)
 	})
 	o.Notes = append(o.Notes, fmt.Sprintf("exhaustive: all concatenations of up to %d symbols over a %d-symbol alphabet", maxLen, len(scanAlphabet)))
+	// identifiers over non-ASCII letters, part-only characters (combining mark, non-ASCII digit, ZWJ) and separators:
+	// every sequence of up to 5 symbols (a scanner that remembers anything between characters shows here)
+	idAlpha := []string{"\u0628", "\u0661", "\u0301", "\u200d", "é", "a", " ", "+", "1", "\u00a0"}
+	enumSeq(len(idAlpha), 5, func(idx []int) {
+		if len(idx) < 2 {
+			return
+		}
+		var text []byte
+		for _, i := range idx {
+			text = append(text, idAlpha[i]...)
+		}
+		emit(text, true)
+	})
+	o.Notes = append(o.Notes, "exhaustive: all sequences of 2..5 symbols over {U+0628, U+0661, U+0301, U+200D, e-acute, a, space, +, 1, NBSP}")
 	r := newRand(seed, "scan")
 	n := 20000
 	if thorough {
